@@ -369,11 +369,14 @@ Fixpoint walk (fuel : nat) (pop : bytes -> option bytes * option bytes * bytes)
 
 Definition has_bsl (s : bytes) : bool := existsb (N.eqb BSL) s.
 
-(** predicateMatcher.Matches *)
+(** predicateMatcher.Matches.  The first segment of the key is the measurement name, not a tag
+    pair: it is popped and dropped before the loop (repair of finding
+    measurement-name-with-equals-parsed-as-tag; it used to be fed to the state like a tag). *)
 Definition matches (p : pred) (key0 : bytes) : bool :=
   let key := cut_sep key0 in
   let pop := if has_bsl key then pop_esc else pop_plain in
-  walk (S (length key)) pop p g_empty (compile p) key.
+  let rest := snd (pop key) in
+  walk (S (length rest)) pop p g_empty (compile p) rest.
 
 (** * Reference semantics *)
 
@@ -443,8 +446,9 @@ Fixpoint nodupb (l : list bytes) : bool :=
 Definition wf_env (env : tagset) : bool :=
   nodupb (map fst env) &&
   forallb (fun kv => negb (ends_bsl (fst kv)) && nonempty (snd kv) && negb (ends_bsl (snd kv))) env.
-(** measurement name as it appears in the first segment of the key: no '=' and no trailing '\' *)
-Definition wf_name (name : bytes) : bool := negb (has_eq name) && negb (ends_bsl name).
+(** measurement name as it appears in the first segment of the key: no trailing '\'
+    ('=' in the name is fine since the measurement segment is skipped) *)
+Definition wf_name (name : bytes) : bool := negb (ends_bsl name).
 Definition wf_key (name : bytes) (env : tagset) : bool :=
   wf_name name && wf_env env && negb (has_sep (make_key name env)).
 
